@@ -1,7 +1,9 @@
 package vc
 
 import (
+	"fmt"
 	"go/types"
+	"sort"
 
 	"golang.org/x/tools/go/ssa"
 )
@@ -52,3 +54,27 @@ func (s *State) HavocHeap(prefix string) { s.X.havocPrefix(s, prefix) }
 func (s *State) SliceSnapshot(v Value) *SliceVal { return s.sliceSnapshot(v) }
 
 func (x *Exec) Loops(fn *ssa.Function) *LoopInfo { return x.loops(fn) }
+
+// SiteKeys lists the contract site keys of fn with their source positions.
+func (x *Exec) SiteKeys(fn *ssa.Function) []string {
+	sm := x.sites(fn)
+	var out []string
+	for k, in := range sm.All {
+		out = append(out, k+"\t"+x.Prog.Fset.Position(in.Pos()).String()+"\t"+in.String())
+	}
+	sort.Strings(out)
+	li := x.loops(fn)
+	for _, lp := range li.Loops {
+		pos := ""
+		for _, in := range lp.Header.Instrs {
+			if in.Pos().IsValid() {
+				pos = x.Prog.Fset.Position(in.Pos()).String()
+				break
+			}
+		}
+		out = append(out, fmt.Sprintf("loop %d\theader block %d\t%s", lp.Ordinal, lp.Header.Index, pos))
+	}
+	return out
+}
+
+func (x *Exec) Paths() int { return x.paths }
